@@ -77,6 +77,57 @@ func runC08(c *fw.Ctx) {
 		}
 	}
 
+	// (i-corpus) every run of complete top-level declarations of every fixture whose structure can
+	// be recovered, moved into an included file (one file; thorough: also each declaration of the
+	// run in its own file, and the run nested behind a second INCLUDE)
+	{
+		maxBytes := 6000
+		if !c.Quick() {
+			maxBytes = 40000
+		}
+		docs, _ := corpusDocs(maxBytes)
+		for _, d := range docs {
+			if c.Expired() {
+				break
+			}
+			if len(d.top) < 2 || d.top[0].tree.kw != "JSIGHT" {
+				continue
+			}
+			n := len(d.top)
+			cutAt := func(i int) int {
+				if i >= n {
+					return len(d.text)
+				}
+				return d.r.Lines[d.top[i].fromLine].Begin
+			}
+			for i := 1; i < n; i++ {
+				for j := i + 1; j <= n; j++ {
+					if n > 9 && j-i > 2 {
+						continue
+					}
+					run := d.text[cutAt(i):cutAt(j)]
+					root := d.text[:cutAt(i)] + "INCLUDE part.jst\n" + d.text[cutAt(j):]
+					label := fmt.Sprintf("fixture corpus[%d:%d] %s", i, j, d.name)
+					compareSplit(label, d.text, drv.Project{Root: "root.jst", Files: map[string]string{"root.jst": root, "part.jst": run}})
+					if !c.Quick() {
+						compareSplit(label+" nested", d.text, drv.Project{Root: "root.jst", Files: map[string]string{"root.jst": root, "part.jst": "INCLUDE sub/inner.jst\n", "sub/inner.jst": run}})
+						if j-i >= 2 {
+							files := map[string]string{}
+							incs := ""
+							for k := i; k < j; k++ {
+								fn := fmt.Sprintf("p%d.jst", k)
+								files[fn] = d.text[cutAt(k):cutAt(k+1)]
+								incs += "INCLUDE " + fn + "\n"
+							}
+							files["root.jst"] = d.text[:cutAt(i)] + incs + d.text[cutAt(j):]
+							compareSplit(label+" one-file-each", d.text, drv.Project{Root: "root.jst", Files: files})
+						}
+					}
+				}
+			}
+		}
+	}
+
 	// (i) splitting
 	docSets(!c.Quick(), func(name string, blocks []doc.Block) {
 		if c.Expired() {
